@@ -74,6 +74,12 @@ class TG:
             else:
                 keys = rng.sample(['k', '1', 'a'], rng.randint(1, 3))
                 rows.append({'t': kd, 'n': self.n(), 'v': [[k, rng.choice(LEAVES)] for k in keys]})
+        if rng.random() < 0.5 and rows:
+            # two EQUAL but distinct rows: every match is its own object
+            import copy as _copy
+            dup = _copy.deepcopy(rng.choice(rows))
+            dup['n'] = self.n()
+            rows.insert(rng.randint(0, len(rows)), dup)
         holder = rng.choice(['list', 'dict', 'simlist'])
         if holder == 'dict':
             rowsv = {'t': 'dict', 'n': self.n(), 'v': [[f'r{i}', r] for i, r in enumerate(rows)]}
